@@ -7,6 +7,6 @@ CONSTANTS
   OccRates = {1, 2, 3}
   T = 1
 SPECIFICATION Spec
-INVARIANTS StepInv Final OccTransparent
+INVARIANTS StepInv Final OccTransparent UnaryLemma
 PROPERTY Progress
 CHECK_DEADLOCK FALSE
